@@ -560,11 +560,23 @@ fn codec_mode(inp: &str, outp: &str) -> std::io::Result<()> {
                 let de_t = if all_t.iter().all(|x| x.is_some()) { all_t[0].map(|x| hex32(x.0)) } else { None };
                 let de_s = if all_s.iter().all(|x| x.is_some() && *x == all_s[0]) { all_s[0].map(|x| hex16(x.0)) } else { None };
                 let de_t = if all_t.iter().all(|x| *x == all_t[0]) { de_t } else { None };
+                // ... and through a format that is not human readable (MessagePack): still the hex string, still readable
+                let mp_t = rmp_serde::to_vec(&TraceId(t)).ok();
+                let mp_s = rmp_serde::to_vec(&SpanId(s)).ok();
+                let mp_ok = match (&mp_t, &mp_s) {
+                    (Some(bt), Some(bs)) => {
+                        rmp_serde::from_slice::<String>(bt).ok() == Some(disp_t.clone())
+                            && rmp_serde::from_slice::<String>(bs).ok() == Some(disp_s.clone())
+                            && rmp_serde::from_slice::<TraceId>(bt).ok() == Some(TraceId(t))
+                            && rmp_serde::from_slice::<SpanId>(bs).ok() == Some(SpanId(s))
+                    }
+                    _ => false,
+                };
                 writeln!(out, "{}", json!({"ev":"roundtrip","id":case["id"],"trace":hex32(t),"span":hex16(s),"smp":smp,
                     "enc":chars(&enc),"enclen":enc.chars().count(),
                     "dec": dec.map(|c| json!({"some":true,"trace":hex32(c.trace_id.0),"span":hex16(c.span_id.0),"smp":c.sampled})).unwrap_or(json!({"some":false})),
                     "disp_t":disp_t,"disp_s":disp_s,"back_t":back_t,"back_s":back_s,
-                    "ser_t":ser_t,"ser_s":ser_s,"de_t":de_t,"de_s":de_s}))?;
+                    "ser_t":ser_t,"ser_s":ser_s,"de_t":de_t,"de_s":de_s,"mp_ok":mp_ok}))?;
             }
             _ => {}
         }
